@@ -14,7 +14,7 @@ P = {
          "and of Mp4Writer (write_start, add_track, write_sample, update_mdat_size, write_end) is proved to transform the abstract views (per-sample sizes, durations, composition offsets, sync flags, chunk map) exactly as "
          "appending the written sample does, for all histories; rejected calls are proved to leave the writer observationally unchanged; the pending bytes are proved to be appended verbatim and flushed at the recorded offset. "
          "The views are the ISO expansions that C03 proves the reader to implement."),
-   note=TRUST + " Not mechanised: the end-to-end composition lemma (history -> bytes -> reader) and the functional behaviour of the container decoders between the tables and the reader (only their size/consumption/IO families are proved); histories < 2^32-2 samples per track and sample length < 4 GiB are stated preconditions."),
+   note=TRUST + " Both halves are mechanised separately -- muxer: history -> tables -> bytes (reference encoders); reader: bytes -> moov -> trak -> ... -> tables (file_parsed / moov_at / stbl_at, decoding of the last child of each type on the sibling chain) -> lookups -- and the table / header codecs are connected by proved spec-level round-trip lemmas; the single end-to-end composition theorem (history -> bytes -> reader) is not stated as one lemma. Histories < 2^32-2 samples per track and sample length < 4 GiB are stated preconditions."),
  'C02': dict(claim=True, cat='proof', technique='Verus: representation invariant = mutual consistency of the tables, chunk-map step lemma, duration contracts, byte-exact layout of write_start / update_mdat_size, size contracts on every box of the moov tree',
    text=("The writer invariant tw_wf is literally the mutual consistency of the sample tables (size, time-to-sample, composition-offset, sample-to-chunk tables each account for exactly n samples; sync numbers strictly increasing and in range; "
          "every chunk holds at least one sample); write_end is proved to return tables satisfying muxed_tables_consistent; mdhd.duration is proved equal to the summed durations, tkhd.duration to its floor conversion, the movie duration to the maximum; "
@@ -26,13 +26,15 @@ P = {
          "sample_time, sample_rendering_offset, is_sync_sample, sample_offset, read_sample} and Mp4Reader::{sample_count, sample_offset, read_sample} return what "
          "spec/tables.rs (written from ISO/IEC 14496-12 8.6/8.7, no code shared) prescribes under the property's own hypothesis `stbl_consistent`; "
          "StscBox::read_box is proved to derive first_sample by the ISO formula; the seven table decoders are proved against layout predicates."),
-   note=TRUST + " Hypothesis n < 2^32-1 samples. The path of the tables through the container tree (stbl..moov read_box) and the outlined track-table construction in read_header are not functionally verified."),
+   note=TRUST + " Hypothesis n < 2^32-1 samples. The path of the tables from the file through read_header / moov / trak / mdia / minf / stbl is proved (file_parsed, moov_at ... stbl_at: each table is the decoding of the last child of its type on the sibling chain); the outlined track-table construction in read_header (tracks[id].trak == moov.traks[i]) is assumed, sha-pinned."),
  'C04': dict(claim=True, cat='proof', technique='Verus: layout predicate (reader) + reference encoder (writer) per box, size/position family on every box',
    text=("Byte level, both directions, for ftyp, stts, ctts, stss, stsc, stsz, stco, co64, mvhd, tkhd, mdhd, mfhd, mehd, trex, tfdt, tfhd, vmhd, smhd, the box header (32/64-bit) and the FullBox header: write_box is proved to append exactly the bytes of an "
          "independently generated reference encoder and to return box_size(); read_box to consume exactly the box and return a value satisfying the layout predicate. Size level for every other box of the muxer's tree and emsg "
-         "(box_size() == ISO length, write_box advances by exactly that, read_box consumes exactly the declared size for both header forms, trailing bytes skipped). data / ilst / meta / udta decoders: functional (C18)."),
-   note=TRUST + " Domain: box_size <= u32::MAX (D-20). The lemma linking reference encoder and layout predicate (full round trip) is not mechanised; both directions are proved against specs generated from the same ISO syntax table. "
-        "Not under functional contract: hdlr name / url location strings, avcC/hvcC/vpcC/esds field values (sizes only), trun, elst, tx3g, the container decoders' child selection (except the metadata path)."),
+         "(box_size() == ISO length, write_box advances by exactly that, read_box consumes exactly the declared size for both header forms, trailing bytes skipped), also for elst, edts, trun, traf, moof, mvex under their wire predicates; data box byte-exact both ways. "
+         "Every box type is proved to report its own BoxType. Decoders of stbl, minf, mdia, trak, moov, stsd, avc1, avcC (incl. NAL units), mp4a (esds selection), the AudioSpecificConfig and the descriptor length coding, data / ilst / meta / udta: functional, against forward folds over the sibling chain. "
+         "The spec-level round trip X_at(wr(d, p, X_bytes(b)), p, b) is proved for the 10 fixed-layout boxes and 6 table boxes (generated lemmas), with decode-is-a-function lemmas for the tables."),
+   note=TRUST + " Domain: box_size <= u32::MAX (D-20). Round trip not mechanised for stsz, ftyp and the size-level boxes. "
+        "Not under functional contract: hdlr name / url location strings, hvcC/vpcC/tx3g field values and the esds descriptor nesting (sizes only), trun/elst/emsg decoders (consumption only), encoders of ilst / meta / udta (HashMap iteration)."),
  'C05': dict(claim=True, cat='proof', technique='same obligations as C04; the specs are generated from the ISO syntax tables with clause numbers (tool/gen_layouts.py, tool/gen_tables.py) or written from them; Kani full-domain harnesses for bit-level helpers',
    text="Conformance of the boxes listed under C04 (byte level), of the descriptor length coding (size_of_length, Kani all u32), the AAC object-type escape coding (Verus + Kani all 2^16), the box-type registry (Kani: independent table) and BoxHeader::read (Kani, all 16-byte inputs: complete) to layouts written from ISO/IEC 14496-12/-14/-1, proved separately for encoder and decoder so that a symmetric mistake fails on both.",
    note=TRUST + " Bit-packed codec records (avcC/hvcC/vpcC field values, esds descriptor contents beyond their lengths) are not covered."),
@@ -59,8 +61,8 @@ P = {
    text="Mechanised: returned sample bytes are exactly data[off..off+len] of the stream (never stale buffer contents), stream content is never modified, no panic/hang in the covered functions, a box header cut by the end of the input is an error (Kani, all inputs of 0..7 bytes). The relation to the complete file is argued, not mechanised (DESIGN section 6).",
    note=TRUST),
  'C12': dict(claim=True, cat='other', technique='Verus: exact consumption of every box (pos == start+size) for both header forms, skip helpers; Kani: both header forms over all 16-byte inputs',
-   text="Mechanised sub-obligations: header contract for both forms, every decoder under contract leaves the stream at the end of its box whatever trailing bytes it has, skip_box/skip_bytes_to exactness. The two-file relation itself is not mechanised (DESIGN section 6).",
-   note=TRUST + " Known deviation, documented not checked: avc1/mp4a child loops skip a 64-bit child header 8 bytes short (D-31); MetaBox stops where its child walk stops (proved equal to meta_stop)."),
+   text="Mechanised sub-obligations: header contract for both forms, every decoder under contract leaves the stream at the end of its box whatever trailing bytes it has, skip_box/skip_bytes_to exactness; the value of every container decoder (top level, moov, trak, mdia, minf, stbl, stsd/avc1/mp4a, udta/meta/ilst) is proved to be a function of the sibling chain only (forward folds in which unknown children are no-ops by definition), so inserting skippable boxes cannot change it. The two-file relation itself is not stated as a lemma (DESIGN section 6).",
+   note=TRUST + " D-31 (avc1/mp4a child loops skipped a 64-bit child header 8 bytes short) was found by the walk invariant and repaired. MetaBox stops where its child walk stops (proved equal to meta_stop), which containers holding a meta box mirror (child_next_m)."),
  'C13': dict(claim=True, cat='proof', technique='Verus on symbolic 64-bit quantities (no 4 GiB of data needed)',
    text=("update_mdat_size is proved to write the 32-bit size up to 2^32-1 and, beyond, size=1 plus the 64-bit size into exactly the 8 bytes of the wide placeholder, restoring the position; BoxHeader::write uses the 64-bit form iff size > u32::MAX; "
          "update_durations sets version 1 as soon as mdhd / tkhd durations exceed 32 bits and never clears it; write_end keeps co64 iff some chunk offset exceeds u32::MAX and otherwise emits stco with the same values; chunk offsets are the stream positions at flush time for any start position; "
@@ -69,7 +71,8 @@ P = {
  'C14': dict(claim=True, cat='other', technique='Verus: Mp4TrackWriter::new postcondition, constructor contracts, accessor contracts, ftyp/mdhd/tkhd codecs, language packing; Kani cross-checks',
    text=("Proved: Mp4TrackWriter::new stores track id, timescale, language and the media kind selected by the configuration and rejects exactly the configurations outside track_config_ok; the sample-entry constructors copy width/height, parameter sets, "
          "object type / frequency index / channel configuration codes; ftyp, mdhd (incl. the ISO-639 packing, proved inverse on all 15-bit codes), tkhd encode/decode byte-exactly; Mp4Reader brand/timescale accessors return the decoded fields; durations are converted as specified. "
-         "Level 'other': the codec parameter records (avcC, esds contents) are under size contracts only and the composition through the container tree is not mechanised."),
+         "The reader side of the configuration is proved from the file bytes: stsd selects the sample entry, avc1 width/height and the avcC record (profile bytes, every SPS/PPS verbatim) are the decoding of the child found on the sibling chain; the AudioSpecificConfig encoder/decoder pair is byte-exact with a proved round-trip lemma on the encodable domain. "
+         "Level 'other': the avcC encoder is under a size contract only, the esds descriptor nesting is not under functional contract, and the end-to-end composition is not one lemma."),
    note=TRUST),
  'C15': dict(claim=True, cat='proof', technique='Verus frame conditions + postconditions that are functions of (tables, stream data, arguments)',
    text="Reader calls leave tracks/moov/ftyp/size and the stream content unchanged (&mut self frame proved) and their results are specified purely in terms of the tables, the stream data and the arguments (never the stream position), with uniqueness lemmas, so any call history returns what a fresh reader returns. Muxer: every step's result is a function of the previous abstract state and the arguments (C01).",
